@@ -173,6 +173,7 @@ func c11Body(tp *core.Tape, e *core.Env) {
 		return
 	}
 	asg := c11Asg{}
+	ackAsg := c11Asg{} // the last assignment the sidecar acknowledged (what its store holds)
 	check := func(after string) {
 		data, err := os.ReadFile(sc.OutFile)
 		if err != nil {
@@ -243,8 +244,30 @@ func c11Body(tp *core.Tape, e *core.Env) {
 			}
 			ops = append(ops, fmt.Sprintf("concurrent config+targets (%d scheduling points)", yields))
 			e.Logf("op %d concurrent config jobs=%v + targets, %d scheduling points", i, curJobs, yields)
+			ackAsg = asg
 			e.Probe("concurrent_config_and_targets")
 			check("concurrent-config-and-targets")
+			continue
+		}
+		if curTree != nil && tp.Bool("sidecar_restarts", 1, 8) {
+			// the sidecar process is restarted over its directory: its file must again be the latest
+			// configuration (re-read from the file, or pushed again by the coordinator) x the stored assignment
+			sc = sc.Restart()
+			if sc.LoadErr != nil {
+				e.Violate("restart-fails", "", "the sidecar command does not come back after a restart: %v", sc.LoadErr)
+				return
+			}
+			asg = ackAsg // a refused update that the old process held in memory only is gone
+			if !fileMode {
+				if err := sc.PushConfig(curText); err != nil {
+					e.Undecided("configuration rejected after a restart: %v", err)
+					return
+				}
+			}
+			ops = append(ops, "restart")
+			e.Logf("op %d restart", i)
+			e.Fault("sidecar_restart")
+			check("restart")
 			continue
 		}
 		if curTree != nil && tp.Bool("targets_while_file_unwritable", 1, 8) {
@@ -276,6 +299,9 @@ func c11Body(tp *core.Tape, e *core.Env) {
 			}
 			if err == nil || claimed {
 				asg = newAsg
+			}
+			if err == nil {
+				ackAsg = newAsg
 			}
 			ops = append(ops, fmt.Sprintf("targets while the file is unwritable (update error: %v, sidecar reports the new assignment: %v)", err != nil, claimed))
 			e.Logf("op %d targets while the generated file is unwritable: refused=%v claimed=%v", i, err != nil, claimed)
@@ -324,6 +350,7 @@ func c11Body(tp *core.Tape, e *core.Env) {
 				e.Undecided("target update failed: %v", err)
 				return
 			}
+			ackAsg = asg
 			e.Probe("targets_applied")
 			check("targets")
 		}
